@@ -165,6 +165,10 @@ def gen_save(tier, seed):
             yield {'spec': spec, 'units': units[(k + 2) % len(units)], 'snapshot': True}
         if k % 3 == 2:
             yield {'spec': spec, 'units': units[k % len(units)], 'encoding_override': True}
+    # epochs before the Gregorian reform (climate-model style): the calendar stored next to the numbers decides which instants they are
+    for spec in specs[:2]:
+        for u in ('days since 0001-01-01 00:00:00', 'hours since 1500-01-01T00:00:00-03:30'):
+            yield {'spec': spec, 'units': u, 'time_dtype': 'float64'}
 
 
 def raw_values(path, name):
@@ -265,8 +269,11 @@ def test_save(inp):
                           for x in numpy.atleast_1d(raw_values(src, tname)).ravel()]
                 if inp.get('snapshot'):
                     want_t = want_t[:1]
-                if len(got_t) != len(want_t) or any(abs((a - b).total_seconds()) > 1e-3 for a, b in zip(got_t, want_t)):
-                    return f'the instants stored in the saved file (units {u!r}) differ from those of the dataset'
+                def instant(t):        # seconds from a modern epoch, counted in the date's own calendar: comparable across calendars
+                    return float(cftime.date2num(t, 'seconds since 2000-01-01 00:00:00', calendar=t.calendar))
+                if len(got_t) != len(want_t) or any(abs(instant(a) - instant(b)) > 1e-3 for a, b in zip(got_t, want_t)):
+                    return (f'the instants stored in the saved file (units {u!r}, calendar {cal!r}) differ from those of the dataset '
+                            f'(units {before[tname]["units"]!r}, calendar {before[tname].get("calendar", "proleptic_gregorian")!r})')
         finally:
             back.close()
             orig.close()
